@@ -7,6 +7,7 @@ package main
 import (
 	"context"
 	"encoding/hex"
+	"encoding/json"
 	"flag"
 	"fmt"
 	"os"
@@ -1372,7 +1373,21 @@ func main() {
 			fmt.Fprintln(os.Stderr, err)
 			exit(2)
 		}
-		for _, l := range strings.Split(string(b), "\n") {
+		text := string(b)
+		if strings.HasPrefix(strings.TrimSpace(text), "{") { // a replay file written by ./check
+			var rf struct {
+				Violations    []vh.Case `json:"violations"`
+				Disagreements []vh.Case `json:"disagreements"`
+			}
+			if err := json.Unmarshal(b, &rf); err == nil {
+				var ls []string
+				for _, c := range append(rf.Violations, rf.Disagreements...) {
+					ls = append(ls, c.Op)
+				}
+				text = strings.Join(ls, "\n")
+			}
+		}
+		for _, l := range strings.Split(text, "\n") {
 			if strings.TrimSpace(l) == "" {
 				continue
 			}
